@@ -68,6 +68,7 @@ fn main() {
     match (args.cmd.as_str(), args.domain.as_str()) {
         ("record", "graph") => graphrec::record(&sink, &args),
         ("replay", "graph") => graphrec::replay(&sink, &args),
+        ("rerun", "graph") => graphrec::rerun(&sink, &args),
         ("record", "seq") => seqdom::record(&sink, &args),
         ("record", "data") => datadom::record(&sink, &args),
         ("replay", "data") => datadom::replay(&sink, &args),
